@@ -1026,7 +1026,14 @@ def corpus():
         Typedef('PtAlias', R('inc.Pt')),
         Struct('Inner', [F(1, 'a', 'i32', 'required'), F(2, 'b', 'string', 'optional'), F(3, 'c', 'bool', 'optional', I(1)),
                          F(4, 'd', L('i32')), F(5, 'e', 'string', 'required')]),
+        # member names whose Rust spelling differs from the IDL spelling (case conversion, keyword escaping): a struct literal names
+        # its members by their IDL names
+        Struct('Endpoint', [F(1, 'hostName', 'string', 'required'), F(2, 'portNumber', 'i32', 'required'), F(3, 'useTls', 'bool', 'optional'),
+                            F(4, 'type', 'i32', 'optional'), F(5, 'MaxRetries', 'i16')]),
         Struct('Lits', [
+            F(50, 'ep', R('Endpoint'), 'default', LM((Str('hostName'), Str('localhost')), (Str('portNumber'), I(8080)), (Str('useTls'), I(1)),
+                                                     (Str('type'), I(7)), (Str('MaxRetries'), I(3)))),
+            F(51, 'ep_o', R('Endpoint'), 'optional', LM((Str('portNumber'), I(9090)), (Str('hostName'), Str('h', "'")))),
             F(60, 'st', R('Inner'), 'default', LM((Str('a'), I(3)), (Str('b'), Str('bee')))), F(61, 'st_r', R('Inner'), 'required', LM((Str('a'), I(4)))),
             F(62, 'st_o', R('Inner'), 'optional', LM((Str('a'), I(5)), (Str('c'), I(0)), (Str('d'), LL(I(9))))),
             F(63, 'st_none', R('Inner'), 'default', LM()), F(64, 'st_inc', R('inc.Pt'), 'default', LM((Str('x'), I(1)), (Str('y'), I(2)))),
